@@ -400,12 +400,12 @@ constexpr MagRepresentationOrError<T> root(T x, std::uintmax_t n) {
 
         auto result = checked_int_pow(mid, n);
 
-        if (result.outcome != MagRepresentationOutcome::OK) {
-            return {result.outcome};
-        }
+        // If `mid^n` is too big to represent, then `mid` is certainly above the root (`x` itself
+        // is representable): this is not an error, it just means we need to look lower.
+        const bool too_big = (result.outcome != MagRepresentationOutcome::OK);
 
         // Early return if we get lucky with an exact answer.
-        if (result.value == x) {
+        if (!too_big && result.value == x) {
             return {MagRepresentationOutcome::OK, static_cast<T>(mid)};
         }
 
@@ -415,7 +415,7 @@ constexpr MagRepresentationOrError<T> root(T x, std::uintmax_t n) {
         }
 
         // Preserve the invariant that `checked_int_pow(lo, n) < x < checked_int_pow(hi, n)`.
-        if (result.value < x) {
+        if (!too_big && result.value < x) {
             lo = mid;
         } else {
             hi = mid;
@@ -424,7 +424,11 @@ constexpr MagRepresentationOrError<T> root(T x, std::uintmax_t n) {
 
     // Pick whichever one gets closer to the target.
     const auto lo_diff = x - checked_int_pow(lo, n).value;
-    const auto hi_diff = checked_int_pow(hi, n).value - x;
+    const auto hi_pow = checked_int_pow(hi, n);
+    if (hi_pow.outcome != MagRepresentationOutcome::OK) {
+        return {MagRepresentationOutcome::OK, static_cast<T>(lo)};
+    }
+    const auto hi_diff = hi_pow.value - x;
     return {MagRepresentationOutcome::OK, static_cast<T>(lo_diff < hi_diff ? lo : hi)};
 }
 
